@@ -1,6 +1,6 @@
 (* C33 - releasing a savepoint: the parent frame, with the child's collections merged into it
    (SessionTransaction._remove_snapshot), is related to the current state as the parent's snapshot
-   demands.  Needs guard clause g2: the parent has no key switch for an object the child switched. *)
+   demands (the merge keeps the key an object had when the parent began: repaired in f8f802f). *)
 From Coq Require Import List ZArith Bool Arith Lia.
 Import ListNotations.
 From SAV.orm Require Import SessTxn SessTxnBase SessTxnSpec SessTxnInv SessTxnOps SessTxnShift SessTxnStmts SessTxnFlush.
@@ -11,8 +11,10 @@ Proof. intros. unfold expunged. cbn. apply orb_false_r. Qed.
 Lemma pdelf_nil : forall f ob o, pdelf f ob [] o = if mem o (fdel f) then false else odelf (ob o).
 Proof. intros. unfold pdelf. cbn. rewrite orb_false_r. reflexivity. Qed.
 
-Lemma ks_fold_nodup : forall l base, NoDup (map fst base) ->
-  NoDup (map fst (fold_left (fun acc (e : nat * (Z * Z)) => ks_set (fst e) (snd e) acc) l base)).
+Definition ks_merge (l : list (nat * (Z * Z))) (e : nat * (Z * Z)) : list (nat * (Z * Z)) :=
+  ks_set (fst e) (match ks_find (fst e) l with Some (po, _) => po | None => fst (snd e) end, snd (snd e)) l.
+
+Lemma ks_fold_nodup : forall l base, NoDup (map fst base) -> NoDup (map fst (fold_left ks_merge l base)).
 Proof. induction l as [|e l IH]; intros base H; cbn; auto. apply IH. apply ks_set_nodup. exact H. Qed.
 
 Lemma ks_find_notin : forall x l, ~ In x (map fst l) -> ks_find x l = None.
@@ -22,14 +24,17 @@ Proof.
 Qed.
 
 Lemma ks_find_fold : forall l base x, NoDup (map fst l) ->
-  ks_find x (fold_left (fun acc (e : nat * (Z * Z)) => ks_set (fst e) (snd e) acc) l base) =
-  match ks_find x l with Some e => Some e | None => ks_find x base end.
+  ks_find x (fold_left ks_merge l base) =
+  match ks_find x l with
+  | Some (old, nw) => Some (match ks_find x base with Some (po, _) => po | None => old end, nw)
+  | None => ks_find x base
+  end.
 Proof.
-  induction l as [|[a p] l IH]; intros base x H; cbn [fold_left ks_find]; auto.
-  inversion H; subst. rewrite IH by auto. cbn [fst snd].
+  induction l as [|[a [old nw]] l IH]; intros base x H; cbn [fold_left ks_find]; auto.
+  inversion H; subst. rewrite IH by auto. unfold ks_merge. cbn [fst snd].
   destruct (Nat.eqb_spec a x).
   - subst. rewrite (ks_find_notin x l) by auto. rewrite ks_find_set. rewrite Nat.eqb_refl. reflexivity.
-  - destruct (ks_find x l); auto. rewrite ks_find_set. destruct (Nat.eqb_spec x a); [congruence|reflexivity].
+  - destruct (ks_find x l) as [[o1 n1]|]; rewrite ks_find_set; (destruct (Nat.eqb_spec x a); [congruence|reflexivity]).
 Qed.
 
 Section Merge.
@@ -39,8 +44,6 @@ Section Merge.
   Hypothesis G : Good ob n W [] [].
   Hypothesis L : Rel gp p (gobjs g) (gn g) [] [] (gW g).
   Hypothesis R : Rel g f ob n [] [] W.
-  (* g2: no object has a key switch recorded in both scopes *)
-  Hypothesis Hg : forall x, ks_find x (fks f) <> None -> ks_find x (fks p) = None.
 
   Let m := merge_into p f.
 
@@ -50,8 +53,12 @@ Section Merge.
   Proof. intros x. unfold m, merge_into. cbn. apply mem_fold_addm. Qed.
   Lemma Me : forall x, mem x (fdel m) = mem x (fdel p) || mem x (fdel f).
   Proof. intros x. unfold m, merge_into. cbn. apply mem_fold_addm. Qed.
-  Lemma Mk : forall x, ks_find x (fks m) = match ks_find x (fks f) with Some e => Some e | None => ks_find x (fks p) end.
-  Proof. intros x. unfold m, merge_into. cbn. apply ks_find_fold. apply (r_ksu _ _ _ _ _ _ _ R). Qed.
+  Lemma Mk : forall x, ks_find x (fks m) =
+    match ks_find x (fks f) with
+    | Some (old, nw) => Some (match ks_find x (fks p) with Some (po, _) => po | None => old end, nw)
+    | None => ks_find x (fks p)
+    end.
+  Proof. intros x. unfold m, merge_into. cbn. apply (ks_find_fold (fks f) (fks p) x). apply (r_ksu _ _ _ _ _ _ _ R). Qed.
 
   Let GGp := proj1 GCp.
   Let GGg := proj1 GCg.
@@ -129,7 +136,7 @@ Section Merge.
       assert (Hag : oatt (gobjs g x) = true) by congruence. destruct (F2 Hag) as [K2 D2].
       split.
       + unfold pkey in *. rewrite Mk. destruct (ks_find x (fks f)) as [[old nw]|] eqn:Ef.
-        * rewrite (Hg x) in K1 by congruence. congruence.
+        * destruct (ks_find x (fks p)) as [[po pn]|]; congruence.
         * destruct (ks_find x (fks p)) as [[old nw]|]; congruence.
       + rewrite pdelf_nil, Me. destruct (mem x (fdel p)); cbn; [exact D1|]. congruence.
     - (* r_fresh *)
@@ -172,7 +179,7 @@ Section Merge.
     - (* r_ks *)
       intros x old nw Hk. rewrite Mk in Hk. rewrite Mn, Md.
       destruct (ks_find x (fks f)) as [[o1 n1]|] eqn:Ef.
-      + inversion Hk; subst. destruct (r_ks _ _ _ _ _ _ _ R x old nw Ef) as [A1 [A2 [A3 A4]]].
+      + inversion Hk; subst. destruct (r_ks _ _ _ _ _ _ _ R x o1 nw Ef) as [A1 [A2 [A3 A4]]].
         repeat split; auto. destruct A4 as [A4|A4]; rewrite A4; [left|right]; apply orb_true_r.
       + destruct (r_ks _ _ _ _ _ _ _ L x old nw Hk) as [A1 [A2 [A3 A4]]].
         pose proof (att_not_new_f x A1 A3) as E2.
